@@ -106,7 +106,8 @@ class CompilationUnit(EvaluationContext):
                 node=node)
 
         for param_type, arg in zip(routine.params.values(), node.args):
-            if isinstance(arg, Lvalue):
+            if isinstance(arg, Lvalue) and \
+               self.get_routine(arg.base_var, 'function') is None:
                 # argument type must match exactly for lvalues,
                 # because pass is by reference
                 if arg.type != param_type:
